@@ -6,6 +6,7 @@ import Driver.Frame
 import Driver.Text
 import Driver.Cap
 import Driver.Promise
+import Driver.Server
 /-! `modeld`: one operation per line on stdin, one canonical result per line on stdout. -/
 open Driver
 
@@ -18,6 +19,7 @@ def dispatch (line : String) : String :=
   | "text" :: rest => Driver.Text.run rest
   | "cap" :: rest => Driver.Cap.run rest
   | "promise" :: rest => Driver.Promise.run rest
+  | "server" :: rest => Driver.Server.run rest
   | "build" :: rest => Driver.Read.runBuild rest
   | ["case", _] => "case"
   | _ => "bad-op"
